@@ -9,7 +9,7 @@ import z3
 from pyvc.interp import NORMAL, CollV, ExcV, Exit, Frame, Interp, LoopSpec, SelfV, St
 from pyvc import sym
 from pyvc.run import Unit
-from pyvc.sym import (B, I, NONE, S, BoolV, ClassV, CoroV, DictV, ExtV, FuncV, IntL, IntV, KwV, NoneV, OptV, PlaceV, Ref, RefL, RefV,
+from pyvc.sym import (StarV, B, I, NONE, S, BoolV, ClassV, CoroV, DictV, ExtV, FuncV, IntL, IntV, KwV, NoneV, OptV, PlaceV, Ref, RefL, RefV,
                       SemV, SeqV, SetV, StrV, TupleV, Unsupported, V, fresh)
 from pyvc.theory import ArrV, eq_value, same_value
 
@@ -382,3 +382,183 @@ def _as_state(sh) -> St:
     s = St()
     s.sh = sh
     return s
+
+
+# ======================================================================================================
+# contract of _start_task as seen by its callers (the spawner coroutines)
+# ======================================================================================================
+def c_start_task(ip: Interp, st: St, fr, selfv, args):
+    th: PoolTheory = ip.theory
+    me = st.me
+    a = dict(args)
+    a.setdefault("ignore_lock", BoolV(False))
+    for k in ("end_callback", "cancel_callback"):
+        a.setdefault(k, NoneV())
+    ecb_ref, ccb_ref = th.as_ref(st, a["end_callback"]), th.as_ref(st, a["cancel_callback"])
+    if not isinstance(a["awaitable"], RefV) or not isinstance(a["group_name"], StrV) or not isinstance(a["ignore_lock"], BoolV):
+        raise Unsupported("_start_task called with unexpected argument shapes")
+    p = PView(st)
+    ip.require(st, "pre:_start_task:awaitable-given", a["awaitable"].t != NONE, ("C09",))
+    ip.require(st, "pre:_start_task:called-by-a-live-uncancelled-spawner-for-its-own-group",
+               z3.And(p.is_spawner(me), z3.Not(z3.Select(p.creq, me)), a["group_name"].t == z3.Select(p.grp, me)), ("C07", "C10"))
+    ip.require(st, "pre:_start_task:holds-no-pool-slot-yet", z3.Not(z3.Select(p.tok, me)), ("C02",))
+    th.check_point(st, "call:_start_task")
+    st.assume(a["awaitable"].t != NONE)
+    out = []
+    rej, accepted = start_task_rejection(st.sh, a)
+    for cls_, cond in rej:
+        s = st.fork()
+        s.assume(cond)
+        s.tags.append("_start_task:" + cls_)
+        if ip.feasible(s):
+            e = ExcV(cls_, [])
+            e.origin = "pool"
+            out.append((s, Exit(Exit.RAISE, e)))
+    s0 = st.fork()
+    s0.assume(accepted)
+    if not ip.feasible(s0):
+        return out
+    th.interfere(s0, "_start_task")
+    # (A) cancelled while waiting for room
+    sa = s0.fork()
+    sa.tags.append("_start_task:cancelled")
+    sa.assume(th.ghost(sa, "creq", me))
+    old_out = PView(sa).sem.out
+    sa.sh["_enough_room"] = __import__("pyvc.theory", fromlist=["havoc_like"]).havoc_like(sa.sh["_enough_room"], "stc_sem")
+    for _n, f, _p in th.inv(sa.sh):
+        sa.assume(f)
+    sa.assume(PView(sa).sem.out == old_out)
+    sa.aux["seg0"] = dict(sa.sh)
+    if ip.feasible(sa):
+        out.append((sa, Exit(Exit.RAISE, th.delivered_cancel())))
+    # (B) started
+    sb = s0.fork()
+    sb.tags.append("_start_task:started")
+    sb.assume(z3.Not(th.ghost(sb, "creq", me)))
+    seg = dict(sb.sh)
+    th.havoc_shared(sb, START_TASK_MODIFIES, "stn")
+    for k in START_TASK_MODIFIES:
+        th._facts(sb, sb.sh[k])
+    r = fresh("new_id", I)
+    for _n, f, _p in start_task_post(th, seg, sb.sh, me, a, r, ecb_ref, ccb_ref):
+        sb.assume(f)
+    for _n, f, _p in th.inv(sb.sh):
+        sb.assume(f)
+    th.instantiate_for_me(sb)
+    sb.aux["seg0"] = dict(sb.sh)
+    sb.aux["seg0_inv"] = True
+    if "$started" in sb.loc:
+        sb.loc["$started"] = IntV(sb.loc["$started"].t + 1)
+    sb.trace.append(("started", r))
+    out.append((sb, IntV(r)))
+    return out
+
+
+def use_start_task_contract(ip: Interp):
+    ip.contracts["pool.BaseTaskPool._start_task"] = c_start_task
+
+
+# ======================================================================================================
+# spawner threads  _apply_spawner / _start_num   (C04, C07, C12)
+# ======================================================================================================
+def spawner_loop_inv(numvar):
+    def inv(c):
+        st = c.st
+        me = st.me
+        num = numvar(c)
+        return [("counts", z3.And(st.loc["$invoked"].t == c.i, st.loc["$started"].t + st.loc["$skipped"].t == c.i)),
+                ("not-cancelled-at-loop-head", z3.Not(z3.Select(st.sh["creq"].t, me))),
+                ("holds-nothing", z3.And(z3.Not(z3.Select(st.sh["tok"].t, me)), z3.Select(st.sh["loc"].t, me) == L_RUN))]
+
+    return inv
+
+
+LOOPSPECS[("pool.TaskPool._apply_spawner", 1)] = LoopSpec(spawner_loop_inv(lambda c: c.st.loc["num"].t), ("C04",), name="spawn-each")
+LOOPSPECS[("pool.SimpleTaskPool._start_num", 1)] = LoopSpec(spawner_loop_inv(lambda c: c.st.loc["num"].t), ("C04",), name="spawn-each")
+
+
+def spawner_unit(qual: str, kind: int, cls: str, mk_args):
+    def fn(ip: Interp, th: PoolTheory):
+        install(ip)
+        use_start_task_contract(ip)
+        th.loops_need_inv = True
+        st = th.initial(me_kind=kind)
+        me = st.me
+        p = PView(st)
+        st.assume(z3.Select(p.loc, me) == L_NS)
+        st.assume(z3.Not(z3.Select(p.creq, me)))  # T3
+        st.assume(z3.Not(z3.Select(p.tok, me)))
+        args, expect = mk_args(st, th)
+        st.assume(args["group_name"].t == z3.Select(p.grp, me))
+        th.set_ghost(st, "loc", me, z3.IntVal(L_RUN))  # first step of the thread
+        st.aux["seg0"] = dict(st.sh)
+        th.instantiate_for_me(st)
+        for g in ("$invoked", "$started", "$skipped"):
+            st.loc[g] = IntV(0)
+        num = args["num"].t
+        want = z3.If(num > 0, num, 0)
+
+        def on_corocall(s: St, fn_t, cargs, ckws):
+            ip.require(s, "invoke:the-requested-function", fn_t == expect["func"], ("C04",))
+            okf = z3.BoolVal(False)
+            if cargs and all(isinstance(x, StarV) for x in cargs) and not ckws and cargs[0].stars == 1:
+                a0 = ip.deref(s, cargs[0].v)
+                if isinstance(a0, RefV) and len(cargs) == 1:
+                    # `**{}`: the request had kwargs=None
+                    okf = z3.And(a0.t == expect["args"], expect["kwargs"] == NONE)
+                elif isinstance(a0, RefV) and len(cargs) == 2 and cargs[1].stars == 2:
+                    k0 = ip.deref(s, cargs[1].v)
+                    if isinstance(k0, RefV):
+                        okf = z3.And(a0.t == expect["args"], k0.t == expect["kwargs"], expect["kwargs"] != NONE)
+            ip.require(s, "invoke:with-exactly-the-requested-arguments", okf, ("C04",))
+            s.loc["$invoked"] = IntV(s.loc["$invoked"].t + 1)
+
+        th.on_corocall = on_corocall
+        th.on_call_raised = lambda s: s.loc.__setitem__("$skipped", IntV(s.loc["$skipped"].t + 1))
+        a2 = dict(args)
+        exits = run_body(ip, th, st, qual, a2, cls=cls)
+        for s, v in exits:
+            th.set_ghost(s, "loc", me, z3.IntVal(L_DONE))
+            th.check_point(s, "thread-end")
+            if isinstance(v, Exit):
+                c = v.val.cls
+                ip.require(s, f"noraise:{c}:spawner-must-not-die", z3.BoolVal(False), ("C04", "C12", "C08"))
+                continue
+            cancelled = "_start_task:cancelled" in s.tags
+            if cancelled:
+                closes = [e for e in s.trace if e[0] == "close"]
+                coros = [e for e in s.trace if e[0] == "corocall"]
+                ip.require(s, "cancelled:built-coroutine-closed", z3.BoolVal(len(closes) == 1), ("C02",))
+                ip.require(s, "cancelled:no-slot-retained", z3.Not(th.ghost(s, "tok", me)), ("C02",))
+            else:
+                ip.require(s, "post:exactly-num-invocations", _ghost(s, "$invoked") == want, ("C04",))
+                ip.require(s, "post:every-invocation-started-or-skipped-because-the-call-raised", _ghost(s, "$started") + _ghost(s, "$skipped") == want, ("C04", "C12"))
+
+    return fn
+
+
+def _ghost(s: St, name):
+    v = s.aux.get("ghost_final", {}).get(name)
+    if v is None:
+        v = s.loc[name]
+    return v.t
+
+
+def apply_spawner_args(st: St, th):
+    a = {"group_name": StrV(fresh("a_group", S)), "func": RefV(fresh("a_func", Ref)), "args": RefV(fresh("a_args", Ref)),
+         "kwargs": RefV(fresh("a_kwargs", Ref)), "num": IntV(fresh("a_num", I)), "end_callback": RefV(fresh("a_ecb", Ref)),
+         "cancel_callback": RefV(fresh("a_ccb", Ref))}
+    st.assume(z3.And(a["func"].t != NONE, a["args"].t != NONE))
+    return a, {"func": a["func"].t, "args": a["args"].t, "kwargs": a["kwargs"].t}
+
+
+def start_num_args(st: St, th):
+    a = {"num": IntV(fresh("a_num", I)), "group_name": StrV(fresh("a_group", S))}
+    st.assume(z3.And(st.sh["_func"].t != NONE, st.sh["_args"].t != NONE, st.sh["_kwargs"].t != NONE))
+    return a, {"func": st.sh["_func"].t, "args": st.sh["_args"].t, "kwargs": st.sh["_kwargs"].t}
+
+
+UNITS.append(Unit("pool.TaskPool._apply_spawner[thread]", spawner_unit("pool.TaskPool._apply_spawner", K_APPLY, "TaskPool", apply_spawner_args),
+                  ("C04", "C07", "C12", "C02", "C08"), ["pool.TaskPool._apply_spawner"], theory_factory=lambda: PoolTheory("TaskPool"), trusted=TRUSTED))
+UNITS.append(Unit("pool.SimpleTaskPool._start_num[thread]", spawner_unit("pool.SimpleTaskPool._start_num", K_START, "SimpleTaskPool", start_num_args),
+                  ("C04", "C07", "C12", "C02", "C08"), ["pool.SimpleTaskPool._start_num"], theory_factory=lambda: PoolTheory("SimpleTaskPool"), trusted=TRUSTED))
